@@ -667,6 +667,14 @@ impl Expression {
                 if next == '\\' {
                     let next = ps.next()?;
                     let ch = match next {
+                        // a line continuation: the backslash and the line terminator add nothing
+                        '\n' | '\u{2028}' | '\u{2029}' => continue,
+                        '\r' => {
+                            if ps.peek::<0>() == Some('\n') {
+                                ps.next();
+                            }
+                            continue;
+                        }
                         'r' => '\r',
                         'n' => '\n',
                         't' => '\t',
